@@ -209,7 +209,10 @@ class TextFileStorage(Storage[str]):
             if self._index[global_identifier] is not None:
                 raise ValueError("Data with given identifier is already stored.")
 
-            self._index[global_identifier] = (self._process_identifier, self._file.tell())
+            offset = self._file.tell()
+            # the line must be in the file before its index entry is visible for readers
+            print(data, file=self._file, flush=True)
+            self._index[global_identifier] = (self._process_identifier, offset)
 
             self._stored_cnt.value += 1
 
@@ -218,8 +221,6 @@ class TextFileStorage(Storage[str]):
                 self._waiting_for.value += 1
                 while self._waiting_for.value < len(self) and self._index[self._waiting_for.value] is not None:
                     self._waiting_for.value += 1
-
-        print(data, file=self._file, flush=True)
 
     def __getitem__(self, global_identifier: int) -> str:
         """
